@@ -739,7 +739,9 @@ def run(tier):
     if len(ents) < 70:
         raise CheckError('floor: device entry points %d < 70' % len(ents))
     log = []
-    an, inv, skipped = absint_run.run_passes(prog, ents, {'lorawan_device', 'lorawan', 'lora_modulation'}, max_depth=7 if tier == 'thorough' else 6, log=log.append, subsume=True, jobs=16,
+    # one context depth for both tiers: at depth 7 the async front-end entries (Device::join, Device::send) cost minutes per pass
+    # and the cost grows with every arm added below them; the thorough tier adds the all-features stage instead
+    an, inv, skipped = absint_run.run_passes(prog, ents, {'lorawan_device', 'lorawan', 'lora_modulation'}, max_depth=6, log=log.append, subsume=True, jobs=16,
                                              setup=lambda a: a.boundary_traits.update(BOUNDARY))
     obl = an.finalize_obligations()
     n_ok = 0
